@@ -15,6 +15,8 @@ SKINS = {
     "mnemonic-co": {"prefixes": ("c/", "o/"), "dir": "lib"},
     "quoted-nonascii": {"quote": True},
     "quoted-nonascii-dir": {"quote": True, "dir": "d1/d2"},
+    # core.quotepath=false: non-ASCII paths arrive as raw UTF-8
+    "raw-utf8": {"names": {1: "alphaZ1Z-é世.rs", 2: "betaZ2Z-üñ.rs", 3: "gammaZ3Z-ß.rs"}, "dir": "répertoire"},
     # directories that look like git's own a/ b/ c/ i/ o/ w/ prefixes
     "dir-named-a": {"dir": "a"},
     "dir-named-w": {"dir": "w/i"},
